@@ -13,6 +13,12 @@ TEXT = {
             'acknowledgement (partial: the stall after a negative settings delta is proved to exist and is a known finding); '
             'correspondence of the whole connection model with the real library on generated programs with the application '
             'acknowledging every byte.', 'DESIGN.md section 0 and section 7 C05'),
+    'C29': ('Lean 4 theorems: for every state with a legal peer frame-size limit and all argument values, each public call except '
+            'send_headers, push_stream, initiate_connection and initiate_upgrade_connection returns or raises an h2 exception / '
+            'ValueError having left the output buffer and the history of sent frames unchanged (C29_step_partial), and calls on a '
+            'stream id that is not in the table raise exactly NoSuchStreamError above the high-water mark and StreamClosedError '
+            'below it (C29_lookup_*). Partial: the four calls named above are decided only by the correspondence check and the '
+            'oracle on real traces.', 'DESIGN.md section 0 and section 7 C29'),
 }
 DEFAULT_NOTE = ('Trusted: Lean kernel; axioms propext/Classical.choice/Quot.sound only (audited each run); the translators for the '
                 'regenerated parts; the differential harness for the hand-modelled parts of connection.py/stream.py/utilities.py/'
